@@ -194,6 +194,28 @@ void add_type(Node *node) {
   if (!node || node->ty)
     return;
 
+  // A comma chain `(((e0, e1), e2), ...)` (the initializer of a large
+  // automatic array) is typed from the inside out in a loop, not by
+  // recursing once per element.
+  if (node->kind == ND_COMMA && node->lhs->kind == ND_COMMA && !node->lhs->ty) {
+    int n = 0;
+    for (Node *c = node; c->kind == ND_COMMA && !c->ty; c = c->lhs)
+      n++;
+
+    Node **chain = calloc(n, sizeof(Node *));
+    Node *c = node;
+    for (int i = n - 1; i >= 0; i--, c = c->lhs)
+      chain[i] = c;
+
+    add_type(chain[0]->lhs);
+    for (int i = 0; i < n; i++) {
+      add_type(chain[i]->rhs);
+      chain[i]->ty = chain[i]->rhs->ty;
+    }
+    free(chain);
+    return;
+  }
+
   add_type(node->lhs);
   add_type(node->rhs);
   add_type(node->cond);
